@@ -56,6 +56,10 @@ CHECKS = {
  "C16": ("exploration", "corruption space and outcome language specified in EzCorrupt.tla (TLC enumerates truncations, boundary overwrites, structure-aware field and pair corruptions from the decoder's own record parser); every load of the real reader recorded and validated by TLC against EzCorruptTrace.tla",
          "TLC emits one descriptor per corruption that changes at least one byte of a seed file; each damaged file is loaded in a forked ASan/UBSan child with an allocation budget (64 x size + 16 MiB per request) and a wall-clock limit; the recorded outcome must be a Load step of the specification (loaded / refused by a standard exception); a signal, sanitizer report, non-standard exception, over-budget allocation or timeout has no action and rejects the trace.",
          "seeds are files written by the real writer (plus a leading-zeros variant); overwrites sweep every 7th offset in quick and every offset in thorough; sensors: ASan/UBSan (float-cast-overflow excluded: not a memory error), replaced operator new, alarm()", "6/C16"),
+
+ "C17": ("exploration", "capacity predicate Fits in C3DFormat.tla (used by the Reload action of every I/O slice) + EzLimits.tla decision rule model-checked by TLC; boundary driver events validated by TLC against EzLimitsTrace.tla",
+         "For every capacity limit L of the format (description 255, names 127, dimension entry 255, 7 dimensions, 255 points / channels / strings, 32767 frames, 16-bit integer extremes, 65535-byte record, 255 parameter blocks) content at L-1, L, L+1 and far beyond, alone and in pairs, is built through the public API, saved and loaded; TLC validates each observation against the rule: within the limits save and load succeed with the same content, beyond them the save throws or the file still loads to the same content.",
+         "content equality by a Python mirror of C3DFormat.Content; group descriptions and first-frame numbers are not settable through the API (files only)", "6/C17"),
 }
 NA = {
 }
